@@ -11,9 +11,9 @@ EXPLICITS = [U, dict(U, nj="4"), dict(U, b="thr"), dict(U, b="proc"), dict(U, pf
              dict(U, mm="w+", tf="/tmp/y")]
 
 
-def cfg(name, frames, maxdepth, maxlen, gen):
+def cfg(name, frames, maxdepth, maxlen, gen, defb="proc"):
     path = os.path.join(common.VERIF, "out", "cfg", "CS_%s.cfg" % name)
-    lines = ["CONSTANTS", "  Threads = {1, 2}", "  Frames <- %s" % frames, "  Explicits <- ExplicitsA", "  MaxDepth = %d" % maxdepth, "  MaxLen = %d" % maxlen, "  Gen = %s" % tlc.tla(gen)]
+    lines = ["CONSTANTS", "  Threads = {1, 2}", "  Frames <- %s" % frames, "  Explicits <- ExplicitsA", "  MaxDepth = %d" % maxdepth, "  MaxLen = %d" % maxlen, "  Gen = %s" % tlc.tla(gen), '  DefB = "%s"' % defb]
     if gen: lines += ["INIT Init", "NEXT Next", "CONSTRAINT Emit"]
     else: lines += ["SPECIFICATION Spec", "INVARIANT SharedMemIsThreads", "INVARIANT ExplicitBackendWins", "PROPERTY Isolated", "PROPERTY Restored", "VIEW View"]
     lines.append("CHECK_DEADLOCK FALSE")
@@ -22,8 +22,8 @@ def cfg(name, frames, maxdepth, maxlen, gen):
 
 
 def run_job(args):
-    base, k, progs = args
-    jf = os.path.join(base, "job%d.json" % k); json.dump({"explicits": EXPLICITS, "programs": progs}, open(jf, "w"))
+    base, k, progs = args[:3]; defb = args[3] if len(args) > 3 else "proc"
+    jf = os.path.join(base, "job%d.json" % k); json.dump({"explicits": EXPLICITS, "programs": progs, "default_backend": defb}, open(jf, "w"))
     p = subprocess.run(["/venv/bin/python", WORKER, jf], env=dict(os.environ, PYTHONPATH=os.environ.get("VERIF_REPO", "/repo"), PYTHONDONTWRITEBYTECODE="1"), capture_output=True, text=True, timeout=3000)
     if not os.path.exists(jf + ".out"): raise RuntimeError("config worker failed: " + p.stderr[-600:])
     return json.load(open(jf + ".out"))
@@ -42,19 +42,28 @@ def body(c):
     c.extra["programs_exhaustive_L3"] = len(progs); c.extra["programs_simulated"] = len(long)
     if c.quick and len(progs) > 900: progs = rng.sample(progs, 900)
     allp = progs + long
+    # the same with a thread-based process-wide default backend (register_parallel_backend(..., make_default=True))
+    c.model_check("ConfigScope[thread-based default backend]", "MCConfigScope", cfg("mct", "FramesC", 3, 0, False, defb="thr"), workers=16, timeout=600)
+    r = tlc.run("MCConfigScope", cfg("simt", "FramesA", 4, 6 if c.quick else 8, True, defb="thr"), simulate="num=%d" % (150 if c.quick else 2000), depth=12, seed=c.seed + 19, workers=1, timeout=900)
+    c.add_tlc("ConfigScope-simulate[thread-based default]", r)
+    pt = tlc.printed_json(r)
+    r = tlc.run("MCConfigScope", cfg("gent", "FramesC", 2, 2, True, defb="thr"), workers=1, timeout=900, heap="6g"); c.add_tlc("ConfigScope-gen[thread-based default, L=2]", r)
+    pt += tlc.printed_json(r)
+    c.extra["programs_thread_default"] = len(pt)
     base = common.scratch("c17")
     nw = 14
-    jobs = [(base, k, allp[k::nw]) for k in range(nw)]
+    jobs = [(base, k, allp[k::nw]) for k in range(nw)] + [(base, nw + k, pt[k::4], "thr") for k in range(4)]
     with ThreadPoolExecutor(max_workers=nw) as ex:
         results = list(ex.map(run_job, jobs))
     shutil.rmtree(base, ignore_errors=True)
-    for (b, k, ps), res in zip(jobs, results):
+    for b_k_ps, res in zip(jobs, results):
+        ps = b_k_ps[2]
         for prog, r in zip(ps, res):
             c.evaluations += 1
             acts = [[a["act"]["op"], a["act"]["t"]] + ([{kk: vv for kk, vv in a["act"]["f"].items() if vv != "U"}] if a["act"]["op"] == "enter" else [a["act"]["how"]]) for a in prog]
             c.nontrivial.add(json.dumps(acts, sort_keys=True))
             for pb in r["problems"]:
-                key = {"setting": KEYN.get(pb.get("key"), pb.get("kind")), "thread_forced_to_threads": bool(pb.get("forced_threads")), "got": pb.get("got"), "program": acts, "step": pb.get("step"),
+                key = {"default_backend": (b_k_ps[3] if len(b_k_ps) > 3 else "proc"), "setting": KEYN.get(pb.get("key"), pb.get("kind")), "thread_forced_to_threads": bool(pb.get("forced_threads")), "got": pb.get("got"), "program": acts, "step": pb.get("step"),
                        "observer": pb.get("thread"), "explicit": EXPLICITS[pb["explicit"]] if "explicit" in pb else None}
                 c.violation(key, "C17: after %s thread %s constructing Parallel(%s) resolves %s = %r, expected %r (explicit > innermost context > outer > default)" %
                             (acts[: (pb.get("step") or 0) + 1], pb.get("thread"), {kk: vv for kk, vv in (key["explicit"] or {}).items() if vv != "U"}, key["setting"], pb.get("got"), pb.get("want")), pb)
